@@ -528,6 +528,37 @@ func init() {
 		return &Val{T: u.typeOf(x), S: r}
 	}
 
+	// fmt.Sprintf with a constant format: literal pieces are exact; a plain %s (or %v) of a string argument is the
+	// argument itself; every other verb renders as an unknown string (so nothing is assumed about it).
+	models["fmt.Sprintf"] = func(u *Unit, st *State, x *ast.CallExpr, _ *Val, fn *types.Func) *Val {
+		var args []*Val
+		for _, a := range x.Args {
+			args = append(args, u.eval(st, a))
+		}
+		tv, ok := u.info.Types[x.Args[0]]
+		if !ok || tv.Value == nil {
+			return u.freshVal(st, types.Typ[types.String], "sprintf")
+		}
+		u.trusted["model: fmt.Sprintf with a constant format = its literal pieces joined with the rendered arguments; a flag-free %s/%v of a string is the string itself, every other verb renders as an unknown string"] = true
+		format := constantString(tv.Value)
+		pieces, verbs := splitFormat(format)
+		plain := plainVerbs(format)
+		parts := []string{strLit(pieces[0])}
+		for i, vb := range verbs {
+			ai := i + 1
+			if ai < len(args) && (vb == 's' || vb == 'v') && plain[i] && kindOf(args[ai].T) == kString {
+				parts = append(parts, args[ai].S)
+			} else {
+				parts = append(parts, u.d.fresh("verbtext", SStr))
+			}
+			parts = append(parts, strLit(pieces[i+1]))
+		}
+		if len(parts) == 1 {
+			return &Val{T: types.Typ[types.String], S: parts[0]}
+		}
+		return &Val{T: types.Typ[types.String], S: app("str.++", parts...)}
+	}
+
 	// ---- byte readers: ghost field "remaining" = abstract identity of the bytes still to be read
 	remH := func(u *Unit, st *State) string { return u.heapGet(st, "G!remaining", SInt) }
 	bytesContent := func(u *Unit, v *Val) string {
@@ -1139,6 +1170,27 @@ func splitFormat(f string) (pieces []string, verbs []rune) {
 	}
 	pieces = append(pieces, cur)
 	return
+}
+
+// plainVerbs reports, per verb of a format, whether it is written without flags, width or precision ("%s", not "%5s").
+func plainVerbs(f string) []bool {
+	var res []bool
+	for i := 0; i < len(f); i++ {
+		if f[i] != '%' {
+			continue
+		}
+		if i+1 < len(f) && f[i+1] == '%' {
+			i++
+			continue
+		}
+		j := i + 1
+		for j < len(f) && strings.ContainsRune("+-# 0123456789.*[]", rune(f[j])) {
+			j++
+		}
+		res = append(res, j == i+1)
+		i = j
+	}
+	return res
 }
 
 func (u *Unit) errTextFn() string { return u.d.fun("pure!(error).Error!0", []string{SInt}, SStr) }
